@@ -77,6 +77,33 @@ CHECKS = {
              ]},
         ],
     },
+    "C12": {
+        "explanation": "bounded symbolic execution of consumerGroup (AddMember/RemoveMember/StreamDeleted/balance) on directly constructed groups with symbolic consumer ids",
+        "assumptions": ["member liveness timers do not fire (consumer timeout 1h of virtual time)",
+                        "map iteration order: replica b ranges over its maps in reverse insertion order, replica a in insertion order (2 of the k! orders)"],
+        "groups": [
+            {"pkg": "./server", "overlay": "server", "pkgname": "server",
+             "harnesses": [
+                 {"name": "VerifC12Assignments", "quick": {"members": 3, "steps": 4}, "thorough": {"members": 3, "steps": 5},
+                  "max-paths": 3000000,
+                  "covers": ["done", "join", "leave", "stream-deleted"],
+                  "targets": ["consumerGroup).balanceAssignmentsForStream", "consumerGroup).removeConsumer", "consumerGroup).StreamDeleted"]},
+             ]},
+        ],
+    },
+    "C13": {
+        "explanation": "bounded symbolic execution of partition.Subscribe / newSubscribeLoop / removeGroupSubscriber on a directly built partition over a real log, with the subscription loops as goroutines (run-to-block between operations)",
+        "assumptions": ["a client that goes away is modelled as the API handler does it: context cancelled and subscription closed",
+                        "between operations all goroutines run until they park (quiescent points); pre-emption inside an operation is explored only in the thorough tier"],
+        "groups": [
+            {"pkg": "./server", "overlay": "server", "pkgname": "server",
+             "harnesses": [
+                 {"name": "VerifC13GroupSubscribe", "quick": {"steps": 5}, "thorough": {"steps": 6},
+                  "covers": ["done", "accepted", "refused", "replaced", "client-cancel", "message"],
+                  "targets": ["partition).Subscribe", "partition).removeGroupSubscriber", "subscription).Close"]},
+             ]},
+        ],
+    },
     "C14": {
         "explanation": "bounded symbolic execution of protocol.checkEnvelope and wrappers over all byte strings up to maxlen",
         "assumptions": [
@@ -96,6 +123,10 @@ CHECKS = {
 TECH = "bounded symbolic execution of the real Go code (go/ssa) with z3; counterexamples replayed natively"
 
 META = {
+    "C13": {"text": "Bounded symbolic model checking of the implementation: partition.Subscribe with its real subscription-loop goroutines on a real commit log; the history of group subscribes (two consumer ids, so the same id can return; epochs arbitrary 64-bit values decided by the solver), client departures and message deliveries is explored exhaustively within the bound and compared with a holder model at every quiescent point.",
+            "design_ref": "DESIGN.md §4 C13", "note": "bounds: 4 (quick) / 5 (thorough) operations, one consumer group, two consumer ids, run-to-block scheduling between operations", "technique": TECH},
+    "C12": {"text": "Bounded symbolic model checking of the implementation: the real consumerGroup code runs on directly constructed groups; consumer ids are symbolic pairwise-distinct strings (every relative order of ids is a solver case), partition counts, subscriptions and the join/leave/stream-delete history are choices explored exhaustively within the bound; after each operation the exactly-one-owner, subscribed-only, balance and two-replica-agreement assertions are checked.",
+            "design_ref": "DESIGN.md §4 C12", "note": "bounds: 3 members, 2 streams with 1-3 and 1-2 partitions, 4 (quick) / 5 (thorough) operations; liveness timers and the asynchronous StreamDeleted delivery of metadata.removeStream are outside this harness", "technique": TECH},
     "C03": {"text": "Bounded symbolic model checking of the implementation: (a) the committed reader on the real log for every start offset, HW position and HW step across every segment layout reachable with the stated sizes; (b) a parked reader woken by the HW; (c) thorough tier: appender, cleaner-loop segment roller, HW setter and committed reader as goroutines under an exploring scheduler (pre-emption bound 1-2) with an online monitor: nothing above the HW, each committed message once in order, no lost wake-up, HW monotone, unique consecutive offsets in the log.",
             "design_ref": "DESIGN.md §4 C03", "note": "bounds: 3-4 messages, segment size 40..200; schedules: 2 appends, 1 roll, 2 HW updates, 1 reader, pre-emption bound 1 (2 in background runs); schedule counterexamples are replayed by concrete re-execution in the interpreter (replay_kind=interpreted) plus a native twin driver; read-only toggles and >1 reader outside", "technique": TECH},
     "C05": {"text": "Bounded symbolic model checking of the implementation: the real commit log runs over an in-memory file system whose every mutating effect (file write, mmap store, create, truncate, rename, remove, atomic replace) is counted; the crash point k is a symbolic variable, so within each workload every point between two effects is covered; after the crash the real New() recovers the directory and a full read-back, index point look-ups, HW, epoch history and a further append are checked. Counterexamples are confirmed by writing the crash-time image into a real directory and running the real recovery on it.",
